@@ -20,25 +20,24 @@ VARIABLES tls,     \* hosts configured for TLS
           bad
 pvars == <<tls, named, bad>>
 SeqToSet(s) == {s[i] : i \in 1..Len(s)}
-Latch(checks) ==   \* checks: sequence of <<is-bad, text>>
-  IF bad # "" THEN bad
-  ELSE IF \E i \in 1..Len(checks) : checks[i][1]
-       THEN checks[CHOOSE i \in 1..Len(checks) : checks[i][1] /\ \A j \in 1..(i - 1) : ~checks[j][1]][2]
-       ELSE ""
+\* the obligations an event violates in the current state, as texts
+MsgBads(to, scheme, owners) ==
+  LET os == SeqToSet(owners) IN
+  {"O1 secret of " \o o \o " sent to " \o to : o \in O1Bad(named, os, to)}
+  \cup (IF O2Bad(tls, scheme, to, os) THEN {"O2 secret sent over " \o scheme \o " to " \o to} ELSE {})
+LogBads(owners) == IF O3Bad(SeqToSet(owners)) THEN {"O3 secret in log output"} ELSE {}
+Latch(bads) == IF bad # "" THEN bad ELSE IF bads = {} THEN "" ELSE CHOOSE x \in bads : TRUE
 
 PInit == tls = {} /\ named = {} /\ bad = ""
 PReset(t) == tls' = SeqToSet(t) /\ named' = {} /\ bad' = ""
 PMsg(to, scheme, owners) ==
-  LET os == SeqToSet(owners)
-      o1 == O1Bad(named, os, to)
-  IN /\ bad' = Latch(<< <<o1 # {}, "O1 secret of " \o (IF o1 # {} THEN CHOOSE o \in o1 : TRUE ELSE "") \o " sent to " \o to>>,
-                        <<O2Bad(tls, scheme, to, os), "O2 secret sent over " \o scheme \o " to " \o to>> >>)
-     /\ UNCHANGED <<tls, named>>
+  /\ bad' = Latch(MsgBads(to, scheme, owners))
+  /\ UNCHANGED <<tls, named>>
 PChallenge(from, realm) ==
   /\ named' = IF realm # "" THEN named \cup {<<from, realm>>} ELSE named
   /\ UNCHANGED <<tls, bad>>
 PLog(owners) ==
-  /\ bad' = Latch(<< <<O3Bad(SeqToSet(owners)), "O3 secret in log output">> >>)
+  /\ bad' = Latch(LogBads(owners))
   /\ UNCHANGED <<tls, named>>
 PNote == UNCHANGED pvars
 Ok == bad = ""
